@@ -18,7 +18,7 @@ from symx.runner import Acc
 from harness.common import bound, z, fval
 
 PROPERTY = "C07"
-FUNCTIONS = ["molgri.space.utils.q_in_upper_sphere", "utils.hemisphere_quaternion_set", "utils.find_inverse_quaternion", "utils.is_array_with_d_dim_r_rows_c_columns",
+FUNCTIONS = ["molgri.space.rotobj.FullDivCube4DRotations.__init__ (size gate)", "molgri.space.utils.q_in_upper_sphere", "utils.hemisphere_quaternion_set", "utils.find_inverse_quaternion", "utils.is_array_with_d_dim_r_rows_c_columns",
              "molgri.space.rotobj.SphereGrid4Dim._gen_grid", "SphereGridNDim.gen_grid", "SphereGridNDim.get_grid_as_array", "SphereGrid4Dim.get_grid_as_array",
              "SphereGridNDim.get_upper_indices", "SphereGridNDim.get_N"]
 STUBS = ["the generator: a subclass whose _gen_grid installs an arbitrary symbolic half grid and calls the real SphereGrid4Dim._gen_grid",
@@ -32,6 +32,7 @@ EPS = z3.RealVal("1/100000")
 
 def bounds(tier):
     return {"single_quaternion": "all sign/zero structures", "hemisphere_quaternion_set": "N<=2 (thorough 3) arbitrary quaternions, both `upper` values",
+            "fulldiv_size_gate": "N in {8, 40, 272, 2080} each as a case; every other integer N >= 1 symbolic",
             "double_cover": "N in 1..4 canonical unit rows (quick: for N=4 rows 3,4 have a positive first coordinate); plus an axis-aligned row of symbolic length off 1 by > 1e-3 (assertion)"}
 
 
@@ -43,6 +44,8 @@ def shapes(tier, seed):
     for N in (1, 2, 3, 4):
         out.append({"kind": "double", "N": N, "unit": True, "lead": 2 if (N == 4 and tier == "quick") else N})
     out.append({"kind": "double", "N": 1, "unit": False, "lead": 1})
+    for N in (8, 40, 272, 2080, "other"):
+        out.append({"kind": "fulldiv", "N": N})
     return out
 
 
@@ -59,7 +62,48 @@ def canonical(q):
 
 
 def run_shape(shape):
-    return {"upper": run_upper, "hemi": run_hemi, "double": run_double}[shape["kind"]](shape)
+    return {"upper": run_upper, "hemi": run_hemi, "double": run_double, "fulldiv": run_fulldiv}[shape["kind"]](shape)
+
+
+def run_fulldiv(shape):
+    """the size gate of the fulldiv algorithm: its four admissible N (each as a case) are accepted with 0,1,2,3 subdivisions, every
+    OTHER integer N >= 1 (symbolic) is rejected with ValueError.  The polytope is a counter: subdividing is a concrete run (outside)."""
+    import molgri.space.rotobj as RO
+    eng = Engine()
+    prover = Prover(timeout_ms=10000, budget_s=120)
+    acc = Acc(shape)
+    admissible = (8, 40, 272, 2080)
+    nsym = z3.Int("N")
+    eng.assume_global(nsym >= 1, *[nsym != a for a in admissible])
+
+    class Counter:
+        def __init__(self):
+            self.divides = 0
+
+        def divide_edges(self):
+            self.divides += 1
+
+    def body():
+        with bound(RO, Cube4DPolytope=Counter, print=noprint):
+            g = RO.FullDivCube4DRotations(N=shape["N"] if shape["N"] != "other" else SR(z3.ToReal(nsym)))
+            return g.polytope.divides, g.N
+
+    for path in eng.explore(body):
+        acc.begin(prover, path)
+        if acc.reachable is not True:
+            acc.reach(prover.satisfiable(path.premises))
+        if shape["N"] == "other":
+            acc.structural("other_sizes_rejected_with_ValueError", path.kind == "exc" and isinstance(path.value, ValueError), detail=repr(path.value), cex={"N": "other", "model": _model_n(path)})
+        else:
+            ok = path.kind == "ok" and path.value[0] == admissible.index(shape["N"]) and path.value[1] == shape["N"]
+            acc.structural("admissible_size_accepted_with_its_subdivision_level", ok, detail=repr(path.value), cex={"N": shape["N"]})
+    return acc.result(eng.stats, prover.stats)
+
+
+def _model_n(path):
+    s_ = z3.Solver()
+    s_.add(*path.premises)
+    return {"N": str(s_.model()[z3.Int("N")])} if s_.check() == z3.sat else {}
 
 
 def run_upper(shape):
@@ -209,6 +253,36 @@ def replay(cex):
     model = cex.get("model", {}) or {}
     rng = np.random.default_rng(3)
     bad = []
+    if s["kind"] == "fulldiv":
+        class Counter:
+            def __init__(self):
+                self.divides = 0
+
+            def divide_edges(self):
+                self.divides += 1
+        old = RO.Cube4DPolytope
+        RO.Cube4DPolytope = Counter
+        try:
+            for N, lvl in ((8, 0), (40, 1), (272, 2), (2080, 3)):
+                try:
+                    g = RO.FullDivCube4DRotations(N=N)
+                    if g.polytope.divides != lvl:
+                        bad.append(f"fulldiv N={N}: {g.polytope.divides} subdivisions instead of {lvl}")
+                except Exception as e:  # noqa: BLE001
+                    bad.append(f"fulldiv N={N} (admissible) raised {e!r}")
+            for N in [int(model.get("N", 9))] + [1, 7, 9, 41, 273]:
+                if N in (8, 40, 272, 2080):
+                    continue
+                try:
+                    RO.FullDivCube4DRotations(N=N)
+                    bad.append(f"fulldiv N={N} accepted")
+                except ValueError:
+                    pass
+                except Exception as e:  # noqa: BLE001
+                    bad.append(f"fulldiv N={N} raised {e!r}")
+        finally:
+            RO.Cube4DPolytope = old
+        return {"reproduced": bool(bad), "detail": str(bad[:3])}
     if s["kind"] == "upper":
         tests = [np.array([fval(model, f"q{k}", 0.0) for k in range(4)])] + [np.array(v, dtype=float) for v in itertools.product((-0.5, 0.0, 0.5), repeat=4)]
         for q in tests:
